@@ -23,6 +23,42 @@ func (p *Prog) R(f *Func) *Resolver {
 
 func anyV(*V) bool { return true }
 
+// paramObj returns the object of the idx-th parameter (flat, in declaration order) of f's outermost
+// declared function; rules identify parameters by position, never by name (renaming is not a change).
+func paramObj(f *Func, idx int) types.Object {
+	r := f.Root()
+	if r.Type == nil || r.Type.Params == nil {
+		return nil
+	}
+	i := 0
+	for _, fl := range r.Type.Params.List {
+		for _, nm := range fl.Names {
+			if i == idx {
+				return r.Info().Defs[nm]
+			}
+			i++
+		}
+		if len(fl.Names) == 0 {
+			i++
+		}
+	}
+	return nil
+}
+
+// isParam matches a use of the idx-th parameter of f's outermost function.
+func isParam(f *Func, idx int) VPred {
+	obj := paramObj(f, idx)
+	return func(v *V) bool { return v != nil && v.Kind == "var" && obj != nil && v.Obj == obj }
+}
+
+// isErrorVar matches a variable of type error.
+func isErrorVar(v *V) bool {
+	if v == nil || v.Kind != "var" || v.Obj == nil {
+		return false
+	}
+	return types.Identical(v.Obj.Type(), types.Universe.Lookup("error").Type())
+}
+
 func isCallTo(names ...string) VPred { return func(v *V) bool { return v.IsCall(names...) } }
 func isFieldOf(names ...string) VPred {
 	return func(v *V) bool { return v.IsField(names...) }
@@ -263,6 +299,9 @@ func (p *Prog) DomAny(f *Func, target ast.Node, aws ...AtomWant) (bool, string) 
 	for _, aw := range aws {
 		edges = append(edges, g.AtomEdges(aw.A, aw.Want)...)
 		descs = append(descs, fmt.Sprintf("%s=%v", aw.A.Desc, aw.Want))
+	}
+	if len(aws) > 1 {
+		edges = append(edges, g.EdgesEntailing(aws...)...) // edges establishing the disjunction as a whole
 	}
 	d := strings.Join(descs, " | ")
 	if len(edges) == 0 {
